@@ -40,15 +40,21 @@ def execute(case):
     tops = list(case["tops"])
     T = len(tops)
     tr = {"kind": "c13", "case": case, "V": list(range(len(case["jd"]))), "jd": [list(j) for j in case["jd"]], "tops": tops,
-          "target": [[] for _ in tops], "g0": sorted([a, b, t, m] for a, b, t, m in case["edges"]), "calls": [], "overall": [], "raised": ""}
+          "target": [[] for _ in tops], "g0": sorted([a, b, t, m] for a, b, t, m in case["edges"]), "calls": [], "overall": [], "raised": "", "first_again": []}
     E = {t: sum(1 for e in case["edges"] if e[2] == t) for t in tops}
     try:
         ex = gcmpy.JointExcessJointDegree({TN.NETWORK: G, TN.EDGE_NAMES: tops})
+        held = []
         for c in range(case.get("ncalls", 3)):
             m = ex.get_ejks()
+            held.append(m)
             mats = [{"t": str(t), "rows": _rows(d, 2 * E.get(t, 0) or 1, T)} for t, d in m.ejks.items() if d or E.get(t, 0)]
             exk = [{"t": str(t), "keys": sorted([int(x) for x in k] for k in ks)} for t, ks in sorted(m.excess_degree_keys.items())]
             tr["calls"].append({"matrices": sorted(mats, key=lambda x: x["t"]), "exkeys": exk})
+        # the object returned by the FIRST extraction, encoded again after the last one: a later call must not change it
+        m0 = held[0]
+        tr["first_again"] = sorted([{"t": str(t), "rows": _rows(d, 2 * E.get(t, 0) or 1, T)} for t, d in m0.ejks.items() if d or E.get(t, 0)],
+                                   key=lambda x: x["t"])
         ov = gcmpy.JointExcessDegree.get_ejk(G)
         tr["overall"] = _rows({(j, k): v for (j, k), v in ov.items()}, 2 * len(case["edges"]) or 1, 1)
     except Exception as exn:
